@@ -241,11 +241,21 @@ class Optic:
         new_material = IdealMaterial(n=value, k=0)
         surface.material_post = new_material
 
-        surface_post = self.surface_group.surfaces[surface_number+1]
-        surface_post.material_pre = new_material
+        surfaces = self.surface_group.surfaces
+        touched = [surface]
+        idx = surface_number + 1
+        surfaces[idx].material_pre = new_material
+        touched.append(surfaces[idx])
+        # a mirror stays in the medium in front of it: carry the new medium
+        # through any mirrors that follow
+        while surfaces[idx].is_reflective and idx + 1 < len(surfaces):
+            surfaces[idx].material_post = new_material
+            idx += 1
+            surfaces[idx].material_pre = new_material
+            touched.append(surfaces[idx])
 
         # Fresnel coatings hold the media on both sides of their surface
-        for surf in (surface, surface_post):
+        for surf in touched:
             if isinstance(surf.coating, FresnelCoating):
                 surf.set_fresnel_coating()
 
